@@ -4,7 +4,7 @@ from __future__ import annotations
 import ast
 from typing import Any
 
-from sa.cfg import CFG, Node, calls_in
+from sa.cfg import CFG, calls_in
 from sa.kern import make_evaluator, py_calls
 from sa.report import Ctx
 from sa.srcmodel import FuncInfo, func_body, inline_locals
@@ -63,40 +63,17 @@ def run(ctx: Ctx) -> None:
     ro = repo.func(MOD, "run_ode")
     _retry(ctx, ro)
     _is_ok_rule(ctx)
-    _rows(ctx, ro)
     ctx.rule("D10.7", "state of a row comes from an interpolator covering "
              "its time; the search terminates and stays in range")
-    _interpolation(ctx, ro)
     ctx.rule("D10.8", "integration cycle protocol")
-    _stepping(ctx, ro)
+    from sa.checks import c10_runode
+    c10_runode.check(ctx, ro)
     _failure_row(ctx, ro)
     _dest(ctx)
     ctx.rule("D10.6", "the cells of dest are the documented terms of J; "
              "J = sum / simulated time")
     _j_terms(ctx)
 
-
-
-def _names(ro: FuncInfo, repo: Any) -> tuple[str, str]:
-    """(finished flag, result matrix): discovered, not assumed."""
-    flag = "is_finished"
-    for n in ast.walk(ro.node):
-        if isinstance(n, (ast.Assign, ast.AnnAssign)) and isinstance(
-                n.value, ast.Compare) and isinstance(
-                n.value.left, ast.Attribute) and \
-                n.value.left.attr == "status" and repo.const(
-                ro.module, n.value.comparators[0]) == "finished":
-            tg = n.targets[0] if isinstance(n, ast.Assign) else n.target
-            if isinstance(tg, ast.Name):
-                flag = tg.id
-    res = "result"
-    outer = next((s for s in func_body(ro) if isinstance(s, ast.While)),
-                 None)
-    if outer is not None:
-        for r in ast.walk(outer):
-            if isinstance(r, ast.Return) and isinstance(r.value, ast.Name):
-                res = r.value.id
-    return flag, res
 
 
 # ------------------------------------------------------------------ D10.1
@@ -230,277 +207,6 @@ def _is_ok_rule(ctx: Ctx) -> None:
            "(written positively, so NaN fails)" if ok else
            "_is_ok does not test -1e10 < v < 1e10 for every value",
            construct="_is_ok definition")
-
-
-def _rows(ctx: Ctx, ro: FuncInfo) -> None:
-    repo = ctx.repo
-    FLAG, RES = _names(ro, repo)
-    cfg = CFG(ro.node)
-    okc = repo.func(MOD, "_is_ok")
-
-    def is_ok_test(n: Node) -> bool:
-        return n.kind == "test" and any(
-            isinstance(c.func, ast.Name) and repo.resolve(
-                ro.module, c.func.id) is okc for c in calls_in(n.ast))
-    rets = [n for n in cfg.nodes if n.kind == "stmt" and isinstance(
-        n.ast, ast.Return)]
-    # the multi-row return: the one inside the retry loop
-    outer = next(s for s in func_body(ro) if isinstance(s, ast.While))
-    inner_rets = [r for r in rets if any(r.ast is x for x in ast.walk(outer))]
-    ctx.need(len(inner_rets) == 1, "run_ode: return of the simulated rows")
-    R = inner_rets[0]
-    tests = [n for n in cfg.nodes if is_ok_test(n)]
-    ctx.count("is_ok_tests_in_run_ode", len(tests))
-    # (a) dominated by an _is_ok test of the first row
-    a_ok = cfg.dominated_by(R, is_ok_test)
-    # (b) guarded by the finished flag
-    flag_tests = [n for n in cfg.nodes if n.kind == "test" and isinstance(
-        n.ast, ast.Name) and n.ast.id == FLAG]
-    b_ok = any(R in {m for m, lb in t.succ if lb is True} or
-               cfg.dominated_by(R, lambda n, t=t: n is t)
-               for t in flag_tests)
-    # (c) in the row loop, an iteration reaches the next one only through
-    # an _is_ok test (ok outcome) - otherwise the flag is cleared
-    row_loop = None
-    for n in ast.walk(outer):
-        if isinstance(n, ast.For) and isinstance(
-                n.iter, ast.Subscript) and ast.unparse(
-                n.iter.value) == RES:
-            row_loop = n
-    ctx.need(row_loop is not None, "run_ode: loop over the result rows")
-    head = next(n for n in cfg.nodes if n.ast is row_loop and n.kind == "for")
-    body_tests = [t for t in tests if any(t.ast is x or x is t.ast
-                                          for x in ast.walk(row_loop))]
-
-    def clears(n: Node) -> bool:
-        a = n.ast
-        return n.kind == "stmt" and isinstance(a, ast.Assign) and any(
-            isinstance(t, ast.Name) and t.id == FLAG
-            for t in a.targets) and repo.const(ro.module, a.value) is False
-    first_body = [m for m, lb in head.succ if lb == "iter"]
-    def flag_still_set(a: Node, b: Node, lab: object) -> bool:
-        # leaving a test of the flag through its False outcome means the
-        # flag was cleared before: such rows are never returned
-        return not (a in flag_tests and lab is False)
-    c_ok = bool(body_tests) and bool(first_body) and not any(
-        cfg.can_reach_avoiding(
-            fb, head, lambda n: n in body_tests or clears(n),
-            flag_still_set)
-        for fb in first_body)
-    # the failing outcome of the row test leaves via clearing the flag
-    d_ok = True
-    for t in body_tests:
-        # `not _is_ok(point)`: the call's False outcome = not ok
-        bad_succ = [m for m, lb in t.succ if lb is False]
-        for m in bad_succ:
-            if cfg.can_reach_avoiding(m, head, clears):
-                d_ok = False
-    # (e) the tests look at the WHOLE row (state, control and time): the
-    # argument is the row variable (bound to result[k] / the loop target
-    # over the rows of result) or result[k] itself, never a part of it
-    row_names = {row_loop.target.id} if isinstance(
-        row_loop.target, ast.Name) else set()
-    row0_defs: list[ast.stmt] = []
-    it_ok = isinstance(row_loop.iter, ast.Subscript) and isinstance(
-        row_loop.iter.slice, ast.Slice) and repo.const(
-        ro.module, row_loop.iter.slice.lower) == 1 and \
-        row_loop.iter.slice.upper is None and row_loop.iter.slice.step is None
-    ctx.ob("D10.2", ro, row_loop, bool(it_ok),
-           "the row loop visits result[1:], i.e. every row after the first"
-           if it_ok else f"the row loop visits `{ast.unparse(row_loop.iter)}`"
-           " - rows are skipped or row 0 is recomputed",
-           construct="row loop range")
-    for s_ in ast.walk(outer):
-        if isinstance(s_, (ast.Assign, ast.AnnAssign)) and \
-                s_.value is not None and isinstance(
-                s_.value, ast.Subscript) and ast.unparse(
-                s_.value.value) == RES and not isinstance(
-                s_.value.slice, (ast.Slice, ast.Tuple)) and repo.const(
-                ro.module, s_.value.slice) == 0:
-            tg_ = s_.targets[0] if isinstance(s_, ast.Assign) else s_.target
-            if isinstance(tg_, ast.Name):
-                row_names.add(tg_.id)
-                row0_defs.append(s_)
-    partial = []
-    for t in tests:
-        for c in calls_in(t.ast):
-            if isinstance(c.func, ast.Name) and repo.resolve(
-                    ro.module, c.func.id) is okc:
-                a0 = c.args[0] if c.args else None
-                whole = (isinstance(a0, ast.Name) and a0.id in row_names) \
-                    or (isinstance(a0, ast.Subscript) and ast.unparse(
-                        a0.value) == RES and not isinstance(
-                        a0.slice, (ast.Slice, ast.Tuple)))
-                if not whole:
-                    partial.append(ast.unparse(c))
-    e_ok = not partial
-    # (f) polarity: from the NOT-ok outcome of any row test the rows can
-    # never be returned within the same integration cycle
-    outer_head = next(n for n in cfg.nodes if n.ast is outer
-                      and n.kind == "join")
-    f_ok = True
-    for t in tests:
-        for m, lb in t.succ:
-            if lb is False and cfg.can_reach_avoiding(
-                    m, R, lambda n: n is outer_head or clears(n),
-                    flag_still_set):
-                f_ok = False
-    # (g) the rows are built only after a finished integration that stayed
-    # inside the bounds: R lies behind the True outcome of the finished flag
-    # AND of the integration state's is_ok
-    def behind_true_edge(pred: Any) -> bool:
-        for c in cfg.nodes:
-            if c.kind == "test" and pred(c):
-                def edge_ok(a: Node, b: Node, lab: object, c: Node = c) \
-                        -> bool:
-                    return not (a is c and lab is True)
-                if R not in cfg.reachable(cfg.entry, lambda n: False,
-                                          edge_ok):
-                    return True
-        return False
-    g1 = behind_true_edge(lambda c: isinstance(c.ast, ast.Name)
-                          and c.ast.id == FLAG)
-    g2 = behind_true_edge(lambda c: isinstance(c.ast, ast.Attribute)
-                          and c.ast.attr == "is_ok")
-    g_ok = g1 and g2
-    # (h) the first row carries the starting state
-    def sets_start(n: Node) -> bool:
-        a = n.ast
-        if n.kind != "stmt" or not isinstance(a, ast.Assign) or not \
-                isinstance(a.targets[0], ast.Subscript):
-            return False
-        tg = a.targets[0]
-        base = tg.value
-        sl = tg.slice
-        row0 = isinstance(base, ast.Name) and base.id in row_names
-        if isinstance(base, ast.Name) and base.id == RES and \
-                isinstance(sl, ast.Tuple) and len(sl.elts) == 2 and \
-                repo.const(ro.module, sl.elts[0]) == 0:
-            row0, sl = True, sl.elts[1]
-        return row0 and isinstance(sl, ast.Slice) and (
-            sl.lower is None or repo.const(ro.module, sl.lower) == 0) and \
-            sl.upper is not None and ast.unparse(sl.upper) == nname0 and \
-            sl.step is None and ast.unparse(a.value) == ro.params[0]
-    nname0 = next((
-        (s_.targets[0] if isinstance(s_, ast.Assign) else s_.target).id
-        for s_ in func_body(ro) if isinstance(
-            s_, (ast.Assign, ast.AnnAssign)) and s_.value is not None
-        and ast.unparse(s_.value) == f"len({ro.params[0]})"), "n")
-    first_tests = [t for t in tests if t not in body_tests]
-    h_ok = bool(first_tests) and all(
-        cfg.dominated_by(t, sets_start) for t in first_tests)
-    # ... and the first-row test looks at row 0
-    for t in first_tests:
-        for c in calls_in(t.ast):
-            if isinstance(c.func, ast.Name) and repo.resolve(
-                    ro.module, c.func.id) is okc and c.args:
-                a0 = c.args[0]
-                if isinstance(a0, ast.Name):
-                    if not cfg.dominated_by(t, lambda n: any(
-                            n.ast is d and (d.targets[0] if isinstance(
-                                d, ast.Assign) else d.target).id == a0.id
-                            for d in row0_defs)):
-                        h_ok = False
-                elif not (isinstance(a0, ast.Subscript) and repo.const(
-                        ro.module, a0.slice) == 0):
-                    h_ok = False
-    ok = a_ok and b_ok and c_ok and d_ok and e_ok and f_ok and g_ok and h_ok
-    ctx.ob("D10.2", ro, R.ast, ok,
-           "the rows are returned only if the finished flag is still set; "
-           "row 0 and every later row are checked by _is_ok, and a failing "
-           "check clears the flag before leaving" if ok else
-           f"a row can be returned unchecked: first-row-check={a_ok}, "
-           f"flag-guard={b_ok}, every-row-checked={c_ok}, "
-           f"failure-clears-flag={d_ok}, whole-row-checked={e_ok}"
-           + (f" (only a part is tested: {partial})" if partial else "")
-           + f", not-ok-outcome-never-returns={f_ok}, behind-finished-and-"
-           f"in-bounds={g_ok}, first-row-state-is-start={h_ok}",
-           construct="rows checked")
-    # ---- D10.3 controller calls
-    ctrl, params_nm, start_nm = ro.params[2], ro.params[3], ro.params[0]
-    rowv = row_loop.target.id if isinstance(
-        row_loop.target, ast.Name) else "point"
-    nname = next((
-        (s_.targets[0] if isinstance(s_, ast.Assign) else s_.target).id
-        for s_ in func_body(ro) if isinstance(
-            s_, (ast.Assign, ast.AnnAssign)) and s_.value is not None
-        and ast.unparse(s_.value) == f"len({start_nm})"), "n")
-    tdefs = [s_ for s_ in ast.walk(row_loop) if isinstance(s_, ast.Assign)
-             and ast.unparse(s_.value) == f"{rowv}[-1]"
-             and isinstance(s_.targets[0], ast.Name)]
-    tname = tdefs[0].targets[0].id if tdefs else "t"
-    calls = [c for c in ast.walk(ro.node) if isinstance(c, ast.Call)
-             and isinstance(c.func, ast.Name) and c.func.id == ctrl]
-    ctx.count("controller_calls", len(calls))
-    def is_ctrl_call(n: Node) -> bool:
-        return n.kind == "stmt" and any(
-            isinstance(c.func, ast.Name) and c.func.id == ctrl
-            for c in calls_in(n.ast))
-    # every row test is preceded, in the same row, by the controller call
-    # that fills its control slots
-    def row_start(n: Node) -> bool:
-        return n is head or (n.kind == "stmt" and isinstance(
-            n.ast, (ast.Assign, ast.AnnAssign)) and any(
-            isinstance(x, ast.Name) and x.id in row_names for x in (
-                n.ast.targets if isinstance(n.ast, ast.Assign)
-                else [n.ast.target])))
-    filled = True
-    for t in tests:
-        # walking backwards from the test, a controller call must come
-        # before the start of the row
-        seen: set[int] = set()
-        stack = [p for p, _ in t.pred]
-        while stack:
-            q = stack.pop()
-            if id(q) in seen or is_ctrl_call(q):
-                continue
-            seen.add(id(q))
-            if row_start(q) or q is cfg.entry:
-                filled = False
-                break
-            stack += [p for p, _ in q.pred]
-    ctx.ob("D10.3", ro, outer, filled and len(calls) >= 2,
-           "before a row is tested (and possibly returned) the controller "
-           "has been called for that row on every path" if filled and len(
-               calls) >= 2 else
-           "a row reaches its _is_ok test (and the caller) without its "
-           "control slots having been computed by the controller",
-           construct="controller called for every row")
-    for c in calls:
-        a = [ast.unparse(x).replace(" ", "") for x in c.args]
-        first = a[:2] == [start_nm, "0.0"]
-        later = a[:2] == [f"{rowv}[0:{nname}]", tname] or a[:2] == [
-            f"{rowv}[:{nname}]", tname]
-        ok3 = len(a) == 4 and (first or later) and a[2] == params_nm \
-            and a[3] == f"{rowv}[{nname}:-1]"
-        ctx.ob("D10.3", ro, c, ok3,
-               f"controller({', '.join(a)}): state, time and control slots "
-               "of the same row" if ok3 else
-               f"controller({', '.join(a)}) does not receive the state/time "
-               "of the row whose control slots it fills",
-               construct=f"controller call {a[0]}")
-    # t is the time cell of the row
-    t_def = [s for s in ast.walk(row_loop) if isinstance(s, ast.Assign)
-             and ast.unparse(s.targets[0]) == tname]
-    ok_t = len(t_def) == 1 and ast.unparse(
-        t_def[0].value) == f"{rowv}[-1]"
-    st = [s for s in ast.walk(row_loop) if isinstance(s, ast.Assign)
-          and ast.unparse(s.targets[0]).replace(" ", "") in (
-              f"{rowv}[0:{nname}]", f"{rowv}[:{nname}]")]
-    ok_s = len(st) == 1 and isinstance(st[0].value, ast.Call) and [
-        ast.unparse(x) for x in st[0].value.args] == [tname]
-    ctx.ob("D10.3", ro, row_loop, ok_t and ok_s,
-           "per row: t = point[-1], state = dense(t), then the controller "
-           "fills the control slots", construct="row assembly")
-    other_ctrl_writes = [s for s in ast.walk(outer) if isinstance(
-        s, ast.Assign) and any(
-        ast.unparse(t).replace(" ", "").endswith(f"[{nname}:-1]")
-        for t in s.targets)]
-    ctx.ob("D10.3", ro, other_ctrl_writes[0] if other_ctrl_writes
-           else outer, not other_ctrl_writes,
-           "inside the retry loop the control slots are never written "
-           "directly", construct="no direct control writes",
-           nontrivial=False)
 
 
 # ------------------------------------------------------------------ D10.4
@@ -1168,411 +874,3 @@ def _while_info(ctx: Ctx, comp: FuncInfo, ev: Evaluator, env: Env,
         return {"error": f"stored value not normalised: {u}"}
     return {"hi": hi, "lo": lo, "value": val, "index_ok": index_ok,
             "guard": guard}
-
-
-# ------------------------------------------------------------------ D10.7
-def _interpolation(ctx: Ctx, ro: FuncInfo) -> None:
-    """Each later row takes its state from an interpolator covering its time;
-    the search for it advances and stays inside the list."""
-    repo = ctx.repo
-    FLAG, RES = _names(ro, repo)
-    cfg = CFG(ro.node)
-    outer = next(s for s in func_body(ro) if isinstance(s, ast.While))
-    row_loop = None
-    for n in ast.walk(outer):
-        if isinstance(n, ast.For) and isinstance(
-                n.iter, ast.Subscript) and ast.unparse(
-                n.iter.value) == RES:
-            row_loop = n
-    ctx.need(row_loop is not None, "run_ode: loop over the result rows")
-    # the store  row[0:n] = D(t)
-    store = None
-    for s in ast.walk(row_loop):
-        if isinstance(s, ast.Assign) and isinstance(
-                s.value, ast.Call) and isinstance(
-                s.value.func, ast.Name) and len(s.value.args) == 1 and \
-                isinstance(s.value.args[0], ast.Name) and isinstance(
-                s.targets[0], ast.Subscript):
-            store = s
-    if store is None:
-        ctx.ob("D10.7", ro, row_loop, False,
-               "no row ever receives an interpolated state (`row[0:n] = "
-               "interpolator(t)` not found)",
-               construct="state from a covering interpolator")
-        return
-    dn, tn = store.value.func.id, store.value.args[0].id
-    S = next(n for n in cfg.nodes if n.ast is store)
-    head = next(n for n in cfg.nodes if n.ast is row_loop and n.kind == "for")
-    problems: list[str] = []
-    chains = [n for n in cfg.nodes if n.kind == "test" and isinstance(
-        n.ast, ast.Compare) and len(n.ast.ops) == 2 and any(
-        n.ast is x for x in ast.walk(row_loop))]
-    good = None
-    for c in chains:
-        a = c.ast
-        if isinstance(a.left, ast.Attribute) and ast.unparse(
-                a.left.value) == dn and a.left.attr == "t_min" and \
-                ast.unparse(a.comparators[0]) == tn and isinstance(
-                a.comparators[1], ast.Attribute) and ast.unparse(
-                a.comparators[1].value) == dn and \
-                a.comparators[1].attr == "t_max" and all(
-                isinstance(o, ast.LtE) for o in a.ops):
-            good = c
-    if good is None:
-        problems.append(f"no test `{dn}.t_min <= {tn} <= {dn}.t_max` guards "
-                        f"`{ast.unparse(store)}`")
-    else:
-        def edge_ok(a: Node, b: Node, lab: object) -> bool:
-            return not (a is good and lab is True)
-        starts = [m for m, lb in head.succ if lb == "iter"]
-
-        def clears(n: Node) -> bool:
-            a = n.ast
-            return n.kind == "stmt" and isinstance(a, ast.Assign) and any(
-                isinstance(x, ast.Name) and x.id == FLAG
-                for x in a.targets) and repo.const(
-                ro.module, a.value) is False
-        # paths on which the finished flag was cleared do not reach the
-        # store: it sits behind a test of that flag
-        flag_tests = [n for n in cfg.nodes if n.kind == "test" and isinstance(
-            n.ast, ast.Name) and n.ast.id == FLAG and any(
-            n.ast is x for x in ast.walk(row_loop))]
-        behind_flag = False
-        for f in flag_tests:
-            def eok2(a: Node, b: Node, lab: object, f: Node = f) -> bool:
-                return not (a is f and lab is True)
-            if S not in cfg.reachable(starts, lambda n: n is head, eok2) \
-                    and not any(S is st for st in starts):
-                behind_flag = True
-        if not behind_flag:
-            problems.append("the interpolation is not guarded by the "
-                            "finished flag, which the failed search clears")
-        reach = cfg.reachable(starts, lambda n: n is head or clears(n),
-                              edge_ok)
-        if S in reach or any(S is st for st in starts):
-            problems.append("the state can be interpolated without the "
-                            "time having been found inside the "
-                            "interpolator's range")
-        # no re-assignment of the interpolator / the time between the
-        # successful range test and the store
-        def assigns(n: Node) -> bool:
-            a = n.ast
-            return n.kind == "stmt" and isinstance(
-                a, (ast.Assign, ast.AnnAssign, ast.AugAssign)) and any(
-                isinstance(x, ast.Name) and x.id in (dn, tn) for x in (
-                    a.targets if isinstance(a, ast.Assign) else [a.target]))
-        tsucc = [m for m, lb in good.succ if lb is True]
-        for a in [n for n in cfg.nodes if assigns(n)]:
-            for m in tsucc:
-                if (m is a or cfg.can_reach_avoiding(
-                        m, a, lambda n: n is good or n is head)) and \
-                        cfg.can_reach_avoiding(
-                            a, S, lambda n: n is good or n is head):
-                    problems.append(
-                        f"`{ast.unparse(a.ast)[:40]}` changes the "
-                        "interpolator/time after the range test")
-    # ---- the search loop: index advances by one per round, is compared
-    # with the number of interpolators before it is used
-    wl = next((n for n in ast.walk(row_loop) if isinstance(n, ast.While)),
-              None)
-    idx = None
-    if wl is None:
-        problems.append("no search loop over the interpolators")
-    else:
-        picks = [s for s in ast.walk(wl) if isinstance(s, ast.Assign)
-                 and isinstance(s.targets[0], ast.Name)
-                 and s.targets[0].id == dn and isinstance(
-                     s.value, ast.Subscript) and isinstance(
-                     s.value.slice, ast.Name)]
-        if len(picks) != 1:
-            problems.append("the next interpolator is not picked as "
-                            f"`{dn} = <list>[index]`")
-        else:
-            idx = picks[0].value.slice.id
-            lst = ast.unparse(picks[0].value.value)
-            incs = [s for s in wl.body if isinstance(s, ast.AugAssign)
-                    and isinstance(s.target, ast.Name)
-                    and s.target.id == idx]
-            if len(incs) != 1 or not isinstance(
-                    incs[0].op, ast.Add) or repo.const(
-                    ro.module, incs[0].value) != 1 or any(
-                    isinstance(s, (ast.Assign, ast.AugAssign)) and s is not
-                    incs[0] and any(isinstance(x, ast.Name) and x.id == idx
-                                    for x in ast.walk(s) if isinstance(
-                                        getattr(x, "ctx", None), ast.Store))
-                    for s in ast.walk(wl)):
-                problems.append(f"the interpolator index `{idx}` does not "
-                                "advance by exactly one per round: the "
-                                "search may not terminate")
-            # the bound: <len name> = len(list); test idx >= len
-            ln = None
-            for s in ast.walk(outer):
-                if isinstance(s, (ast.Assign, ast.AnnAssign)) and \
-                        s.value is not None and ast.unparse(
-                        s.value).replace(" ", "") == f"len({lst})":
-                    tg = s.targets[0] if isinstance(s, ast.Assign) \
-                        else s.target
-                    ln = tg.id if isinstance(tg, ast.Name) else None
-            P = next(n for n in cfg.nodes if n.ast is picks[0])
-            guards = [n for n in cfg.nodes if n.kind == "test" and isinstance(
-                n.ast, ast.Compare) and len(n.ast.ops) == 1 and any(
-                n.ast is x for x in ast.walk(wl))]
-            bound_ok = False
-            for g in guards:
-                a = g.ast
-                l_, r_ = ast.unparse(a.left), ast.unparse(a.comparators[0])
-                lens = (ln, f"len({lst})")
-                # which outcome of the test implies idx < len?
-                safe_label = None
-                if l_ == idx and r_ in lens:
-                    safe_label = {ast.GtE: False, ast.Lt: True}.get(
-                        type(a.ops[0]))
-                if r_ == idx and l_ in lens:
-                    safe_label = {ast.LtE: False, ast.Gt: True}.get(
-                        type(a.ops[0]))
-                if safe_label is None:
-                    continue
-                def eok(x: Node, y: Node, lab: object, g: Node = g,
-                        sl: bool = safe_label) -> bool:
-                    return not (x is g and lab is sl)
-                inc_nodes = [n for n in cfg.nodes if incs and n.ast is
-                             incs[0]]
-                src = [m for n in inc_nodes for m, _ in n.succ]
-                if src and P not in cfg.reachable(src, None, eok) and \
-                        not any(P is m for m in src):
-                    bound_ok = True
-            for g in guards:
-                a = g.ast
-                l_, r_ = ast.unparse(a.left), ast.unparse(a.comparators[0])
-                lens = (ln, f"len({lst})")
-                unsafe = None
-                if l_ == idx and r_ in lens:
-                    unsafe = {ast.GtE: True, ast.Lt: False}.get(
-                        type(a.ops[0]))
-                if r_ == idx and l_ in lens:
-                    unsafe = {ast.LtE: True, ast.Gt: False}.get(
-                        type(a.ops[0]))
-                if unsafe is None:
-                    continue
-                whead = next(n for n in cfg.nodes if n.ast is wl
-                             and n.kind == "join")
-                for m, lb in g.succ:
-                    if lb is unsafe and (m is whead or cfg.can_reach_avoiding(
-                            m, whead, lambda n: n is head)):
-                        problems.append(
-                            "when the interpolators are exhausted the "
-                            "search loop is not left: it cannot terminate")
-            if not bound_ok:
-                problems.append(
-                    f"`{lst}[{idx}]` is read without `{idx}` having been "
-                    "compared with the number of interpolators")
-    # ---- the search starts at the first interpolator
-    if idx is not None:
-        pre = [s for s in ast.walk(outer) if isinstance(
-            s, (ast.Assign, ast.AnnAssign)) and s.value is not None
-            and not any(s is x for x in ast.walk(row_loop))]
-        i0 = [s for s in pre if isinstance(
-            s.targets[0] if isinstance(s, ast.Assign) else s.target,
-            ast.Name) and (s.targets[0] if isinstance(s, ast.Assign)
-                           else s.target).id == idx]
-        d0 = [s for s in pre if isinstance(
-            s.targets[0] if isinstance(s, ast.Assign) else s.target,
-            ast.Name) and (s.targets[0] if isinstance(s, ast.Assign)
-                           else s.target).id == dn]
-        ok0 = len(i0) == 1 and repo.const(ro.module, i0[0].value) == 0 \
-            and len(d0) == 1 and isinstance(
-            d0[0].value, ast.Subscript) and ast.unparse(
-            d0[0].value.slice) in (idx, "0")
-        if not ok0:
-            problems.append("the search does not start at the first "
-                            "interpolator (index 0)")
-    ctx.ob("D10.7", ro, store, not problems,
-           f"`{ast.unparse(store)}` happens only after `{dn}.t_min <= {tn} "
-           f"<= {dn}.t_max` held for that very interpolator and time; the "
-           "search starts at interpolator 0, advances by one per round and "
-           "compares the index with the list length before using it"
-           if not problems else "; ".join(problems),
-           construct="state from a covering interpolator")
-
-
-# ------------------------------------------------------------------ D10.8
-def _stepping(ctx: Ctx, ro: FuncInfo) -> None:
-    """Every integration cycle starts from a clean state; the finished flag
-    means what it says; every accepted step contributes its interpolator."""
-    repo = ctx.repo
-    cfg = CFG(ro.node)
-    outer = next(s for s in func_body(ro) if isinstance(s, ast.While))
-    head = next(n for n in cfg.nodes if n.ast is outer and n.kind == "join")
-    problems: list[str] = []
-    # the integrator construction of this cycle
-    mk = [n for n in cfg.nodes if n.kind == "stmt" and isinstance(
-        n.ast, (ast.Assign, ast.AnnAssign)) and isinstance(
-        n.ast.value, ast.Call) and ast.unparse(n.ast.value.func) in (
-        "RK45",) and any(n.ast is x for x in ast.walk(outer))]
-    if len(mk) != 1:
-        problems.append("integrator construction not found")
-    else:
-        def is_call(n: Node, attr: str) -> bool:
-            return n.kind == "stmt" and isinstance(
-                n.ast, ast.Expr) and isinstance(
-                n.ast.value, ast.Call) and isinstance(
-                n.ast.value.func, ast.Attribute) and \
-                n.ast.value.func.attr == attr
-        for attr, what in (("init", "the bound tracker is not reset"),
-                           ("clear", "interpolators of an earlier cycle "
-                                     "are kept")):
-            if cfg.can_reach_avoiding(head, mk[0],
-                                      lambda n, a=attr: is_call(n, a)):
-                problems.append(f"a cycle can start without .{attr}(): "
-                                + what)
-        kws = {k.arg: ast.unparse(k.value) for k in mk[0].ast.value.keywords}
-        want = {"t0": "0.0", "y0": ro.params[0], "t_bound": "max_time"}
-        for k, v in want.items():
-            if kws.get(k) != v:
-                problems.append(f"the integrator is created with {k}="
-                                f"{kws.get(k)}, expected {v}")
-    for lp_ in [outer] + [n for n in outer.body if isinstance(n, ast.While)]:
-        if repo.const(ro.module, lp_.test) is not True:
-            problems.append(f"`while {ast.unparse(lp_.test)}`: the retry / "
-                            "stepping loops are expected to run until they "
-                            "are left explicitly")
-    # the bound tracker is built from this call's own arguments
-    mk_state = [n for n in ast.walk(ro.node) if isinstance(n, ast.Call)
-                and isinstance(n.func, ast.Name)
-                and "IntegrationState" in n.func.id]
-    if len(mk_state) == 1:
-        r_ = repo.resolve(ro.module, mk_state[0].func.id)
-        init_ = getattr(r_, "methods", {}).get("__init__") if r_ else None
-        if init_ is not None:
-            want_ = init_.params[1:]
-            got_ = [ast.unparse(a) for a in mk_state[0].args]
-            if mk_state[0].keywords or got_ != want_ or any(
-                    w not in ro.params for w in want_):
-                problems.append(
-                    f"the bound tracker is created with ({', '.join(got_)}) "
-                    f"for parameters ({', '.join(want_)})")
-    # the finished flag
-    flag = _names(ro, repo)[0]
-    asg = [n for n in ast.walk(outer) if isinstance(
-        n, (ast.Assign, ast.AnnAssign)) and n.value is not None and
-        isinstance(n.targets[0] if isinstance(n, ast.Assign) else n.target,
-                   ast.Name) and (n.targets[0] if isinstance(n, ast.Assign)
-                                  else n.target).id == flag]
-    for a in asg:
-        v = a.value
-        okv = repo.const(ro.module, v) is False or (
-            isinstance(v, ast.Compare) and len(v.ops) == 1 and isinstance(
-                v.ops[0], ast.Eq) and isinstance(
-                v.left, ast.Attribute) and v.left.attr == "status" and
-            repo.const(ro.module, v.comparators[0]) == "finished")
-        if not okv:
-            problems.append(f"`{ast.unparse(a)}`: the finished flag may be "
-                            "set although the integration did not finish")
-    # the step loop
-    step_loop = next((n for n in outer.body if isinstance(n, ast.While)),
-                     None)
-    if step_loop is None:
-        problems.append("no stepping loop")
-    else:
-        shead = next(n for n in cfg.nodes if n.ast is step_loop
-                     and n.kind == "join")
-        steps = [n for n in cfg.nodes if n.kind == "stmt" and isinstance(
-            n.ast, ast.Expr) and isinstance(n.ast.value, ast.Call) and
-            isinstance(n.ast.value.func, ast.Attribute)
-            and n.ast.value.func.attr == "step"
-            and any(n.ast is x for x in ast.walk(step_loop))]
-        apps = [n for n in cfg.nodes if n.kind == "stmt" and any(
-            isinstance(c.func, ast.Attribute) and c.func.attr == "append"
-            and c.args and isinstance(c.args[0], ast.Call) and isinstance(
-                c.args[0].func, ast.Attribute)
-            and c.args[0].func.attr == "dense_output"
-            for c in calls_in(n.ast))
-            and any(n.ast is x for x in ast.walk(step_loop))]
-        if len(steps) != 1 or len(apps) != 1:
-            problems.append("stepping loop without exactly one step() and "
-                            "one append(dense_output())")
-        else:
-            # a new round starts only after the interpolator of this step
-            # was collected
-            if any(cfg.can_reach_avoiding(
-                    m, shead, lambda n: n is apps[0] or n is head)
-                   for m, _ in steps[0].succ):
-                problems.append("a step can be followed by the next step "
-                                "without its interpolator being collected")
-            # after a step that left the bounds no interpolator is taken
-            oks = [n for n in cfg.nodes if n.kind == "test" and isinstance(
-                n.ast, ast.Attribute) and n.ast.attr == "is_ok" and any(
-                n.ast is x for x in ast.walk(step_loop))]
-            if not oks:
-                problems.append("the stepping loop never looks at the "
-                                "bound tracker")
-            for o in oks:
-                for m, lb in o.succ:
-                    if lb is False and (m is apps[0] or
-                                        cfg.can_reach_avoiding(
-                            m, apps[0], lambda n: n is shead)):
-                        problems.append("an out-of-bounds step still "
-                                        "contributes an interpolator")
-            # after the interpolator was collected: finished -> leave the
-            # loop (a finished solver must not be stepped), otherwise -> on
-            fts = [n for n in cfg.nodes if n.kind == "test" and isinstance(
-                n.ast, ast.Name) and n.ast.id == flag and any(
-                n.ast is x for x in ast.walk(step_loop))]
-            post = [f for f in fts if f in cfg.reachable(
-                apps[0], lambda n: n is shead or n is head)]
-            pre_t = [f for f in fts if f not in post]
-            if not post:
-                problems.append("after collecting the interpolator the "
-                                "finished flag is not consulted")
-            for f in post:
-                for m, lb in f.succ:
-                    back = m is shead or cfg.can_reach_avoiding(
-                        m, shead, lambda n: n is head)
-                    if lb is True and back:
-                        problems.append("a finished integration is stepped "
-                                        "again")
-                    if lb is False and not back:
-                        problems.append("a running integration is not "
-                                        "continued")
-            for f in pre_t:
-                for m, lb in f.succ:
-                    if lb is True and not (m is apps[0] or (
-                            m.kind != "test" and cfg.can_reach_avoiding(
-                                m, apps[0], lambda n: n.kind == "test"
-                                or n is shead or n is head))):
-                        problems.append("a finished step does not "
-                                        "contribute its interpolator")
-            run_asg = [n for n in ast.walk(step_loop) if isinstance(
-                n, (ast.Assign, ast.AnnAssign)) and n.value is not None
-                and isinstance(n.value, ast.Compare) and isinstance(
-                    n.value.left, ast.Attribute)
-                and n.value.left.attr == "status" and repo.const(
-                    ro.module, n.value.comparators[0]) == "running"]
-            if len(run_asg) != 1 or not isinstance(
-                    run_asg[0].value.ops[0], ast.Eq):
-                problems.append("no flag `status == 'running'`")
-            else:
-                rn = (run_asg[0].targets[0] if isinstance(
-                    run_asg[0], ast.Assign) else run_asg[0].target).id
-                rts = [n for n in cfg.nodes if n.kind == "test" and
-                       isinstance(n.ast, ast.Name) and n.ast.id == rn]
-                if not any(any(lb is True and (m is apps[0] or (
-                               m.kind != "test" and cfg.can_reach_avoiding(
-                                   m, apps[0], lambda n: n.kind == "test"
-                                   or n is shead or n is head)))
-                               for m, lb in r.succ) for r in rts):
-                    problems.append("a running step does not contribute "
-                                    "its interpolator")
-            # step() is the first thing of every round
-            if cfg.can_reach_avoiding(shead, apps[0],
-                                      lambda n: n is steps[0]):
-                problems.append("an interpolator is collected without a "
-                                "step")
-    ctx.ob("D10.8", ro, outer, not problems,
-           "every cycle resets the bound tracker and the interpolator list "
-           "before creating the integrator (from time 0, the starting state, "
-           "up to max_time); the finished flag is only ever `status == "
-           "'finished'` or False; each round of the stepping loop performs "
-           "one step and collects its interpolator unless the step left the "
-           "bounds" if not problems else "; ".join(problems),
-           construct="integration cycle protocol")
